@@ -6,6 +6,7 @@ import (
 	"fmt"
 	"go/types"
 	"os"
+	"os/exec"
 	"path/filepath"
 	"runtime"
 	"sort"
@@ -45,6 +46,8 @@ type PropSpec struct {
 	Explanation string              `json:"explanation"`
 	Outside     []string            `json:"outside_claim"`
 	Reach       []string            `json:"reach_required"`
+	Solvers     []string            `json:"solvers"`
+	Native      bool                `json:"native_replay"`
 }
 
 type Limits struct {
@@ -200,7 +203,7 @@ func cmdRun(args []string) int {
 	maxPaths := fs.Int("max-paths", 0, "path limit")
 	verbose := fs.Bool("v", false, "verbose")
 	noEvidence := fs.Bool("no-evidence", false, "do not write evidence")
-	solvers := fs.String("solvers", "cvc5,z3", "solver order")
+	solvers := fs.String("solvers", "", "solver order (default: property spec, else cvc5,z3-new)")
 	fs.Parse(args)
 
 	seed := int64(0)
@@ -239,6 +242,13 @@ func cmdRun(args []string) int {
 		}
 	}
 	lim := spec.Limits[*tier]
+	if *solvers == "" {
+		if len(spec.Solvers) > 0 {
+			*solvers = strings.Join(spec.Solvers, ",")
+		} else {
+			*solvers = "cvc5,z3-new"
+		}
+	}
 	cfg := Config{Repo: *repo, Tier: *tier, Seed: seed, Workers: *workers, MaxPaths: lim.MaxPaths, Budget: time.Duration(lim.BudgetS) * time.Second,
 		SolverMs: lim.SolverMs, MaxSteps: lim.MaxSteps, Verbose: *verbose, Solvers: strings.Split(*solvers, ",")}
 	if *tier == "thorough" {
@@ -334,10 +344,26 @@ func cmdRun(args []string) int {
 			nKnown++
 			continue
 		}
-		nViol++
 		rp := filepath.Join(*verif, "replays", fmt.Sprintf("%s-%d.json", *prop, i))
-		data, _ := json.MarshalIndent(map[string]any{"property": *prop, "violation": v, "tier": *tier, "how_to_replay": "bin/gosym replay " + rp}, "", " ")
-		os.WriteFile(rp, data, 0o644)
+		writeRP := func() {
+			data, _ := json.MarshalIndent(map[string]any{"property": *prop, "violation": v, "tier": *tier, "how_to_replay": "bin/gosym replay " + rp}, "", " ")
+			os.WriteFile(rp, data, 0o644)
+		}
+		writeRP()
+		if spec.Native && v.Kind != "race" && v.Kind != "deadlock" {
+			// data counterexample of a sequential harness: it must also fail under the real compiler
+			if nativeReplay(*verif, v, rp) {
+				v.Native = "true"
+			} else {
+				v.Native = "false"
+				writeRP()
+				nUnconfirmed++
+				fmt.Printf("ENGINE-MISMATCH property=%s key=%s (reproduced in the engine but not natively with go test; not reported) replay=%s\n", *prop, v.Key, rp)
+				continue
+			}
+			writeRP()
+		}
+		nViol++
 		fmt.Printf("VIOLATION property=%s replay=%s\n", *prop, rp)
 		fmt.Printf("  key=%s\n  %s\n  at %s\n  model: %s\n", v.Key, v.Msg, v.Where, strings.Join(sortedModel(v.Model), " "))
 		for _, o := range v.Observe {
@@ -479,6 +505,22 @@ func (ex *Explorer) concreteReplay(v *Violation) bool {
 		}
 	}
 	return false
+}
+
+// nativeReplay runs the harness with the real tool chain on the counterexample's values.
+func nativeReplay(verif string, v *Violation, replayPath string) bool {
+	i := strings.LastIndex(v.Harness, ".")
+	rel := strings.TrimPrefix(strings.TrimPrefix(v.Harness[:i], modPath), "/")
+	cmd := exec.Command(filepath.Join(verif, "native", "run.sh"), rel, v.Harness[i+1:], replayPath)
+	out, err := cmd.CombinedOutput()
+	if err == nil {
+		return false
+	}
+	txt := string(out)
+	if v.Kind == "panic" {
+		return strings.Contains(txt, "panic:")
+	}
+	return strings.Contains(txt, "NATIVE-ASSERT-FAILED") && strings.Contains(txt, v.ID)
 }
 
 func cmdReplay(args []string) int {
